@@ -150,6 +150,12 @@ def truncCast (q : Rat) : Option Int :=
     if t.natAbs < 1048576 && fracNum * 1048576 > q.den && (q.den - fracNum) * 1048576 > q.den
     then some t else none
 
+/-- `and` / `or` / `xor` in a conversion target: dimensionless operands, the constants combine -/
+def unitNameBits (f : Number → Number → Outcome Number) (a b : NameMap × Numeric) : Outcome (NameMap × Numeric) :=
+  if !a.1.isEmpty || !b.1.isEmpty then .err .generic else do
+  let v ← f ⟨a.2, []⟩ ⟨b.2, []⟩
+  pure (a.1, v.value)
+
 def evalUnitName (ctx : Ctx) : Expr → Outcome (NameMap × Numeric)
   | .call _ _ => .err .generic
   | .unit name => .ok ([((ctx.canonicalize name).getD name, 1)], .one)
@@ -159,10 +165,21 @@ def evalUnitName (ctx : Ctx) : Expr → Outcome (NameMap × Numeric)
     match l with
     | .unit name => .ok ([(name, 1)], .one)
     | _ => .err .generic
-  | .binop .add l r | .binop .sub l r | .binop .mod l r => do
+  | .binop .add l r => do
     let (lu, lv) ← evalUnitName ctx l
-    let (ru, _) ← evalUnitName ctx r
-    if lu != ru then .err .generic else pure (lu, lv)
+    let (ru, rv) ← evalUnitName ctx r
+    -- both sides name the same unit, so the constants combine
+    if lu != ru then .err .generic else pure (lu, lv.add rv)
+  | .binop .sub l r => do
+    let (lu, lv) ← evalUnitName ctx l
+    let (ru, rv) ← evalUnitName ctx r
+    if lu != ru then .err .generic else pure (lu, lv.sub rv)
+  | .binop .mod l r => do
+    let (lu, lv) ← evalUnitName ctx l
+    let (ru, rv) ← evalUnitName ctx r
+    if lu != ru then .err .generic else do
+    let v ← Number.rem ⟨lv, []⟩ ⟨rv, []⟩
+    pure (lu, v.value)
   | .binop .frac l r => do
     let (lu, lv) ← evalUnitName ctx l
     let (ru, rv) ← evalUnitName ctx r
@@ -173,25 +190,25 @@ def evalUnitName (ctx : Ctx) : Expr → Outcome (NameMap × Numeric)
     pure (nmMerge lu (ru.map fun (k, p) => (k, -p)), v)
   | .binop .pow l r => do
     let e ← evalExpr ctx r
-    if !e.dimless then .err .generic else
-    match e.value with
-    | .float => .unsupported "float exponent in conversion target"
-    | .rational q =>
-      match truncCast q with
-      | none => .unsupported "f64 cast of exponent"
-      | some k =>
-        let (lu, lv) ← evalUnitName ctx l
-        if k.natAbs * Number.bitSize lv > Number.hugeBits then .unsupported "huge power" else
-        -- `right as i32` saturates; |k| < 2^31 here unless the value is huge
-        if k.natAbs ≥ 2147483648 then .unsupported "exponent beyond i32" else
-        if k < 0 && lv == .rational 0 then .err .generic else do
-        let v ← lv.pow k
-        pure ((lu.filterMap fun (n, p) => if p * k ≠ 0 then some (n, p * k) else none), v)
-  | .binop .shl _ _ | .binop .shr _ _ => .err .generic
-  | .binop _ l r => do   -- and / or / xor
+    if !e.dimless then .err .generic else do
     let (lu, lv) ← evalUnitName ctx l
-    let (ru, _) ← evalUnitName ctx r
-    if !lu.isEmpty || !ru.isEmpty then .err .generic else pure (lu, lv)
+    -- the constant and the named units are raised the way a value is (`Number::pow`, each name
+    -- standing for a base unit)
+    let res ← Number.pow ⟨lv, lu⟩ e
+    pure (res.unit, res.value)
+  | .binop .shl _ _ | .binop .shr _ _ => .err .generic
+  | .binop .and l r => do
+    let a ← evalUnitName ctx l
+    let b ← evalUnitName ctx r
+    unitNameBits Number.and a b
+  | .binop .or l r => do
+    let a ← evalUnitName ctx l
+    let b ← evalUnitName ctx r
+    unitNameBits Number.or a b
+  | .binop .xor l r => do
+    let a ← evalUnitName ctx l
+    let b ← evalUnitName ctx r
+    unitNameBits Number.xor a b
   | .mul es =>
     match es with
     | [] => .panic "exprs[1..] on empty Mul"
